@@ -296,8 +296,10 @@ pub mod arbitrary_precision {
     {
         let n = BigDecimal::deserialize(deserializer)?;
 
-        if n.scale.abs() > SERDE_SCALE_LIMIT && SERDE_SCALE_LIMIT > 0 {
-            let msg = format!("Calculated exponent '{}' out of bounds", -n.scale);
+        // (checked_abs: the scale may be i64::MIN, which is certainly out of bounds)
+        let out_of_bounds = n.scale.checked_abs().map(|scale| scale > SERDE_SCALE_LIMIT).unwrap_or(true);
+        if out_of_bounds && SERDE_SCALE_LIMIT > 0 {
+            let msg = format!("Calculated exponent '{}' out of bounds", -(n.scale as i128));
             Err(serde::de::Error::custom(msg))
         } else {
             Ok(n)
